@@ -81,6 +81,14 @@ def generate(ctx):
             if sq[j] in "ACGT":
                 sq[j] = wr.choice([c for c in "ACGT" if c != wref[j]])
         wide.append(("wide%d" % i, "".join(sq)))
+    # ... and one record that differs from the reference at every one of the first 12,000 columns and has an ambiguity every fourth
+    # column after that for a while: a single row of well over 64 KiB, between two short ones
+    sq = list(wref)
+    for j in range(12000):
+        sq[j] = wr.choice([c for c in "ACGT" if c != wref[j]])
+    for j in range(12000, 20000, 4):
+        sq[j] = "N"
+    wide.insert(1, ("long_row", "".join(sq)))
     cs.append(make_case(cid, gen.layout(wr, [("ref", wref)], "plain"), gen.layout(wr, wide, "plain"), {"kind": "wide", "nontrivial": True}))
     cid += 1
     for _ in range(20 if ctx.tier == "quick" else 200):
